@@ -474,6 +474,22 @@ class Engine:
                          {i: StructV(v['name'], {}) for i, v in enumerate(adt['variants'])})
         return OpaqueV(ty, next(_uid))
 
+    def materialise_struct(self, st, ty, depth=2, name=''):
+        """eagerly build an unknown value of a crate-local struct type (so that the same unknown
+        fields are seen by everyone who holds the value)"""
+        adt = self.prog.adts.get(ty)
+        if not adt or adt['kind'] != 'struct':
+            return self.mk_default(st, ty, name=name)
+        fields = {}
+        for f in adt['variants'][0]['fields']:
+            fty = f['ty']
+            sub = self.prog.adts.get(fty)
+            if sub and sub['kind'] == 'struct' and depth > 0:
+                fields[f['name']] = self.materialise_struct(st, fty, depth - 1, name + '.' + f['name'])
+            else:
+                fields[f['name']] = self.mk_default(st, fty, name=name + '.' + f['name'])
+        return StructV(ty, fields)
+
     # ================= store access ====================================
     def resolve(self, st, fr, place):
         root = ('L', fr.uid, place['local'])
@@ -838,6 +854,12 @@ class Engine:
                 if r is not None:
                     return BoolV(r)
                 return BoolV(None, ('cmp', c, a, b))
+            if isinstance(a, CharV) and isinstance(b, CharV) and not (a.known is not None and b.known is not None):
+                na, nb = self.char_num(st, a), self.char_num(st, b)
+                r = self.prove_cmp(st, c, na, nb)
+                if r is not None:
+                    return BoolV(r)
+                return BoolV(None, ('cmp', c, na, nb))
             if isinstance(a, CharV) and isinstance(b, CharV) and a.known is not None and b.known is not None:
                 return BoolV({'lt': a.known < b.known, 'le': a.known <= b.known, 'eq': a.known == b.known,
                               'ne': a.known != b.known, 'gt': a.known > b.known, 'ge': a.known >= b.known}[c])
@@ -885,6 +907,12 @@ class Engine:
         if op == 'Offset':
             return a
         return self.mk_default(st, ty)
+
+    def char_num(self, st, v):
+        """code point of a char value as a number (one symbol per unknown char)"""
+        if v.known is not None:
+            return NumV(None, ord(v.known), 'u32')
+        return self.num_opaque(st, 'u32', 0, 0x10ffff, ('char2int', v.key()), 'ord(%r)' % v)
 
     def num_mul(self, st, a, b, ty):
         if a.sym is None and b.sym is None:
@@ -947,8 +975,8 @@ class Engine:
             if isinstance(v, CharV):
                 if v.known is not None:
                     return NumV(None, ord(v.known), to)
-                key = ('char2int', v.key())
-                return self.num_opaque(st, to, 0, 0x10ffff, key, 'ord(%r)' % v)
+                n = self.char_num(st, v)
+                return NumV(n.sym, n.k, to)
             if isinstance(v, BoolV):
                 if v.val is not None:
                     return NumV(None, int(v.val), to)
@@ -1601,6 +1629,13 @@ class Engine:
             from . import inv
             inv.havoc_screen(self, st, w)
         st.log(('loop-head', fr.func, head, fr.uid))
+        if S_ROOT in st.store:
+            from . import inv as _inv
+            try:
+                st.vn[('lh', fr.func, head, 'x')] = _inv._get(self, st, 'cursor', 'x')
+                st.vn[('lh', fr.func, head, 'y')] = _inv._get(self, st, 'cursor', 'y')
+            except Exception:
+                pass
         # collections reachable from locals that the loop mutates through references: bump versions
         st.vn = {k: v for k, v in st.vn.items() if not (isinstance(k, tuple) and k and k[0] in ('contains', 'fact-coll'))}
 
